@@ -252,7 +252,7 @@ def outcome(res):
     if 'panic' in res:
         return ('panic', res['panic'], res.get('file', ''))
     if 'abort' in res:
-        return ('abort', res['abort'])
+        return ('abort', res['abort'], res.get('stderr', ''))
     if 'hang' in res:
         return ('hang',)
     return ('inconclusive', str(res)[:200])
